@@ -367,10 +367,7 @@ func (c *Client) SendIQ(ctx context.Context, iq *stanza.IQ) (chan stanza.IQ, err
 	if iq.Attrs.Type != stanza.IQTypeSet && iq.Attrs.Type != stanza.IQTypeGet {
 		return nil, ErrCanOnlySendGetOrSetIq
 	}
-	if err := c.Send(iq); err != nil {
-		return nil, err
-	}
-	return c.router.NewIQResultRoute(ctx, iq.Attrs.Id), nil
+	return c.router.sendIQ(ctx, c, iq)
 }
 
 // SendRaw sends an XMPP stanza as a string to the server.
